@@ -30,6 +30,7 @@ import (
 	quic "github.com/refraction-networking/uquic"
 	"github.com/refraction-networking/uquic/http3"
 	"github.com/refraction-networking/uquic/quicvarint"
+	"github.com/refraction-networking/uquic/testutils/simnet"
 	tls "github.com/refraction-networking/utls"
 )
 
@@ -309,8 +310,8 @@ func genH3(seed uint64, tier string) KScenario {
 		nb = 1 + r.N(3)
 		o.BatchGapMS = int64(r.Pick(0, 5, 300, 1500))
 	}
-	smallHdr := o.MaxHdr > 0 || o.MaxRespHdr > 0
 	for i := 0; i < n; i++ {
+		smallHdr := (o.MaxHdr > 0 || o.MaxRespHdr > 0) && r.P(0.85)
 		sc.Reqs = append(sc.Reqs, h3GenReq(r, tier, maxBody, n, nb, smallHdr))
 	}
 	if r.P(0.12) {
@@ -516,6 +517,7 @@ type h3Obs struct {
 	cancelled         bool // the client cancelled the context before the exchange finished
 	abandoned         bool
 	uploadErr         bool
+	runDead           bool // the run's horizon had passed when RoundTrip returned
 	t0, t1            int64
 }
 
@@ -536,6 +538,8 @@ type h3Run struct {
 	killed   bool
 	h3t      *http3.Transport
 	srv      *http3.Server
+	hwg      sync.WaitGroup // running handlers
+	closing  bool           // the server is being closed: no new connection is handed to it
 	raw      *h3RawState
 }
 
@@ -554,6 +558,18 @@ func (x *h3Run) verdict() {
 	x.mu.Lock()
 	defer x.mu.Unlock()
 	sort.SliceStable(x.verdicts, func(i, j int) bool { return x.verdicts[i].prio < x.verdicts[j].prio })
+	if x.res.Blocked != "" {
+		var keep []h3Verdict
+		for _, v := range x.verdicts {
+			if v.prio <= 1 {
+				keep = append(keep, v)
+			}
+		}
+		x.verdicts = keep
+		if len(keep) > 0 {
+			x.res.Blocked = ""
+		}
+	}
 	for k, v := range x.verdicts {
 		if k == 0 {
 			if x.on["C18"] || x.on["all"] {
@@ -957,7 +973,21 @@ func (x *h3Run) srvReadBody(what string, so *h3SrvObs, body io.Reader, key uint6
 	}
 }
 
+// closeServer closes the http3.Server. Server.Close holds the server's mutex while it waits for the handlers, and a
+// goroutine blocked on a sync.Mutex keeps the bubble's clock from advancing; so a short graceful shutdown comes first:
+// it lets the accept loop leave (it needs the same mutex) before Close starts waiting.
+func (x *h3Run) closeServer(grace time.Duration) {
+	x.mu.Lock()
+	x.closing = true
+	x.mu.Unlock()
+	ctx, cancel := context.WithTimeout(context.Background(), grace)
+	x.srv.Shutdown(ctx)
+	cancel()
+}
+
 func (x *h3Run) serveHTTP(w http.ResponseWriter, r *http.Request) {
+	x.hwg.Add(1)
+	defer x.hwg.Done()
 	if x.sc.Raw {
 		x.serveRaw(w, r)
 		return
@@ -1319,7 +1349,7 @@ func (x *h3Run) doReq(i int) {
 	resp, err := x.h3t.RoundTrip(req)
 	if err != nil {
 		o.mu.Lock()
-		o.rtErr, o.finished = err, true
+		o.rtErr, o.finished, o.runDead = err, true, x.runCtx.Err() != nil
 		o.mu.Unlock()
 		return
 	}
@@ -1493,6 +1523,13 @@ func runH3(t *testing.T, ksc KScenario, res *KResult) {
 			if err != nil {
 				return
 			}
+			x.mu.Lock()
+			closing := x.closing
+			x.mu.Unlock()
+			if closing {
+				c.CloseWithError(0x100, "")
+				continue
+			}
 			swg.Add(1)
 			go func() {
 				defer swg.Done()
@@ -1502,18 +1539,44 @@ func runH3(t *testing.T, ksc KScenario, res *KResult) {
 	}()
 
 	// ---- client
+	var extraTr []*quic.Transport
+	var extraPC []*simnet.SimConn
+	defer func() {
+		for _, tr := range extraTr {
+			tr.Close()
+		}
+		for _, pc := range extraPC {
+			pc.Close()
+		}
+	}()
+	ndial := 0
 	dial := func(ctx context.Context, addr string, tc *tls.Config, qc *quic.Config) (*quic.Conn, error) {
+		// one socket per connection: with zero-length source connection IDs a socket carries one connection only
+		x.mu.Lock()
+		k := ndial
+		ndial++
+		ctr, utr := nodes.CTr, nodes.UTr
+		if k > 0 {
+			pc := simnet.NewBlockingSimConn(&net.UDPAddr{IP: wClientAddr.IP, Port: wClientAddr.Port + k}, w)
+			ctr = &quic.Transport{Conn: pc, ConnectionIDLength: sc.Cfg.ClientCIDLen}
+			extraTr, extraPC = append(extraTr, ctr), append(extraPC, pc)
+			if utr != nil {
+				utr = &quic.UTransport{Transport: ctr, QUICSpec: nodes.Spec}
+			}
+			res.Probe("cli:extra-connection")
+		}
+		x.mu.Unlock()
 		var c *quic.Conn
 		var err error
 		switch {
-		case nodes.UTr != nil && o.Early:
-			c, err = nodes.UTr.DialEarly(ctx, wServerAddr, tc, qc)
-		case nodes.UTr != nil:
-			c, err = nodes.UTr.Dial(ctx, wServerAddr, tc, qc)
+		case utr != nil && o.Early:
+			c, err = utr.DialEarly(ctx, wServerAddr, tc, qc)
+		case utr != nil:
+			c, err = utr.Dial(ctx, wServerAddr, tc, qc)
 		case o.Early:
-			c, err = nodes.CTr.DialEarly(ctx, wServerAddr, tc, qc)
+			c, err = ctr.DialEarly(ctx, wServerAddr, tc, qc)
 		default:
-			c, err = nodes.CTr.Dial(ctx, wServerAddr, tc, qc)
+			c, err = ctr.Dial(ctx, wServerAddr, tc, qc)
 		}
 		if err == nil {
 			x.mu.Lock()
@@ -1532,13 +1595,17 @@ func runH3(t *testing.T, ksc KScenario, res *KResult) {
 	if x.h3t != nil {
 		x.h3t.Close()
 	}
-	for _, c := range x.cconns {
+	x.mu.Lock()
+	cconns, sconns := append([]*quic.Conn{}, x.cconns...), append([]*quic.Conn{}, x.sconns...)
+	x.mu.Unlock()
+	for _, c := range cconns {
 		c.CloseWithError(0x100, "")
 	}
-	srv.Close()
-	for _, c := range x.sconns {
+	for _, c := range sconns {
 		c.CloseWithError(0x100, "")
 	}
+	x.hwg.Wait()
+	x.closeServer(time.Millisecond)
 	swg.Wait()
 	time.Sleep(50 * time.Millisecond)
 
@@ -1560,16 +1627,24 @@ func (x *h3Run) connCauses() [2]error {
 	x.mu.Lock()
 	defer x.mu.Unlock()
 	var out [2]error
-	for _, c := range x.cconns {
-		if e := context.Cause(c.Context()); e != nil && out[0] == nil {
-			out[0] = e
+	pick := func(side int, conns []*quic.Conn) {
+		for _, c := range conns {
+			e := context.Cause(c.Context())
+			if e == nil {
+				continue
+			}
+			var ae *quic.ApplicationError
+			plain := errors.As(e, &ae) && (ae.ErrorCode == 0x100 || ae.ErrorCode == 0)
+			if out[side] == nil || !plain {
+				out[side] = e
+				if !plain {
+					return
+				}
+			}
 		}
 	}
-	for _, c := range x.sconns {
-		if e := context.Cause(c.Context()); e != nil && out[1] == nil {
-			out[1] = e
-		}
-	}
+	pick(0, x.cconns)
+	pick(1, x.sconns)
 	return out
 }
 
@@ -1614,11 +1689,9 @@ func (x *h3Run) runTransport(dial func(context.Context, string, *tls.Config, *qu
 			case "ctr-close":
 				x.nodes.CTr.Close()
 			case "srv-close":
-				x.srv.Close()
+				x.closeServer(time.Millisecond)
 			case "srv-shutdown":
-				ctx, c := context.WithTimeout(context.Background(), 500*time.Millisecond)
-				x.srv.Shutdown(ctx)
-				c()
+				x.closeServer(500 * time.Millisecond)
 			}
 		}()
 	}
@@ -1763,9 +1836,6 @@ func (x *h3Run) judgeTransport(cause [2]error) {
 				res.Probe("srv:write-beyond-content-length-refused")
 			}
 		}
-		if mustComplete && len(o.calls) == 0 {
-			x.flag(4, "handler never invoked in a fault-free run", "%s: client error %s", what, h3ErrClass(o.rtErr))
-		}
 		// ---------------- client side
 		if !o.finished {
 			o.mu.Unlock()
@@ -1773,12 +1843,14 @@ func (x *h3Run) judgeTransport(cause [2]error) {
 		}
 		if o.rtErr != nil {
 			switch {
-			case o.cancelled || errors.Is(o.rtErr, context.Canceled):
+			case o.cancelled || o.runDead:
 				res.Probe("cli:cancelled-before-response")
 			case h.Panic != 0:
 				res.Probe("cli:error-after-handler-panic")
 			case p.respBig == 2:
 				res.Probe("cli:oversized-response-header-refused")
+			case mustComplete && (errors.Is(o.rtErr, context.Canceled) || errors.Is(o.rtErr, context.DeadlineExceeded)) && len(o.calls) == 0:
+				x.flag(4, "RoundTrip returned a context error although the request's own context is alive (the dial it shared was cancelled by another request)", "%s: %v", what, o.rtErr)
 			case mustComplete:
 				x.flag(4, "RoundTrip failed in a fault-free run: "+h3ErrClass(o.rtErr), "%s: %v", what, o.rtErr)
 			default:
@@ -1788,9 +1860,6 @@ func (x *h3Run) judgeTransport(cause [2]error) {
 			continue
 		}
 		res.Probe("cli:response")
-		if p.respBig == 2 {
-			x.flag(3, "response header above Transport.MaxResponseHeaderBytes delivered to the client", "%s", what)
-		}
 		if p.hdrBig == 2 || (p.hdrBig == 1 && o.status == 431 && len(o.calls) == 0) {
 			if o.status != 431 {
 				x.flag(3, "request header above Server.MaxHeaderBytes not answered with 431", "%s: status %d", what, o.status)
@@ -1799,6 +1868,9 @@ func (x *h3Run) judgeTransport(cause [2]error) {
 			}
 			o.mu.Unlock()
 			continue
+		}
+		if p.respBig == 2 {
+			x.flag(3, "response header above Transport.MaxResponseHeaderBytes delivered to the client", "%s", what)
 		}
 		if len(o.calls) == 0 {
 			x.flag(1, "client received a response although the handler was never invoked", "%s: status %d", what, o.status)
@@ -2013,15 +2085,1069 @@ func (x *h3Run) judgeConn(cause [2]error, incomplete bool) {
 }
 
 // ---------------------------------------------------------------- raw peer (placeholder section replaced below)
-//RAWSTUB-BEGIN
-type H3RawStream struct{}
-type h3RawState struct{}
 
-func genH3Raw(r *KRng, sc *H3Scenario, tier string) { sc.Raw = false; sc.Reqs = []H3Req{h3GenReq(r, tier, 1000, 1, 1, false)}; sc.Opt.Conc = 1 }
-func (x *h3Run) serveRaw(w http.ResponseWriter, r *http.Request) {}
-func (x *h3Run) runRaw(dial func(context.Context, string, *tls.Config, *quic.Config) (*quic.Conn, error)) {}
-func (x *h3Run) judgeRaw() {}
+type H3RawFrame struct {
+	K string `json:"k"` // headers | trailers | data | unk | settings | goaway | cancel_push | max_push_id | push_promise | reserved
+	T uint64 `json:"t,omitempty"`
+	N int    `json:"n,omitempty"`
+	V int    `json:"v,omitempty"` // headers: malformation variant; settings: content variant
+	W int    `json:"w,omitempty"` // varint width of type and length: 0 minimal, 1..3 = 2, 4, 8 bytes
+}
 
-var _ = qpack.NewDecoder
-var _ = quicvarint.Append
-//RAWSTUB-END
+type H3RawStream struct {
+	Kind    string       `json:"kind"` // req | uni
+	UType   uint64       `json:"utype,omitempty"`
+	Frames  []H3RawFrame `json:"frames"`
+	CutPPM  int          `json:"cut_ppm,omitempty"` // > 0: only this fraction of the byte sequence is written
+	End     string       `json:"end"`               // fin | reset | close | open
+	Split   int64        `json:"split,omitempty"`
+	GapUS   int64        `json:"gap_us,omitempty"`
+	Method  string       `json:"m,omitempty"`
+	Hdr     []H3KV       `json:"hdr,omitempty"`
+	CLDecl  int          `json:"cl,omitempty"` // 0 no content-length, 1 right, 2 larger than the DATA frames, 3 smaller
+	RespN   int          `json:"resp_n,omitempty"`
+	RespTrl bool         `json:"resp_trl,omitempty"`
+	RStop   int          `json:"rstop,omitempty"` // n > 0: after n-1 response bytes the peer stops reading (RStopAct)
+	RStopAct string      `json:"rstop_act,omitempty"` // stop | close
+	AtMS    int64        `json:"at,omitempty"`
+}
+
+// ---------------------------------------------------------------- raw peer: byte sequences
+
+type h3Span struct {
+	start, hdrEnd, end int
+	f                  *H3RawFrame
+}
+
+func h3Varint(b []byte, v uint64, w int) []byte {
+	if w > 0 {
+		l := []int{0, 2, 4, 8}[w&3]
+		if quicvarint.Len(v) <= l {
+			return quicvarint.AppendWithLen(b, v, l)
+		}
+	}
+	return quicvarint.Append(b, v)
+}
+
+func h3QPACK(fields [][2]string) []byte {
+	var buf bytes.Buffer
+	enc := qpack.NewEncoder(&buf)
+	for _, f := range fields {
+		enc.WriteField(qpack.HeaderField{Name: f[0], Value: f[1]})
+	}
+	enc.Close()
+	return buf.Bytes()
+}
+
+func (x *h3Run) rawPath(idx int) string { return fmt.Sprintf("/s/%d/raw?i=%d", idx, idx) }
+
+func h3RawDataLen(st *H3RawStream) int {
+	n := 0
+	for i := range st.Frames {
+		if st.Frames[i].K == "data" {
+			n += st.Frames[i].N
+		}
+	}
+	return n
+}
+
+func (x *h3Run) rawReqFields(idx int, st *H3RawStream, v int) [][2]string {
+	m := st.Method
+	if m == "" {
+		m = "POST"
+	}
+	f := [][2]string{{":method", m}, {":scheme", "https"}, {":authority", "raw.test"}, {":path", x.rawPath(idx)}}
+	switch v {
+	case 3:
+		f = f[1:] // no :method
+	case 7:
+		f = append(f, [2]string{":method", m})
+	case 9:
+		f = append(f, [2]string{":status", "200"})
+	}
+	for _, kv := range st.Hdr {
+		f = append(f, [2]string{strings.ToLower(kv.K), h3Val(kv)})
+	}
+	total := h3RawDataLen(st)
+	switch st.CLDecl {
+	case 1:
+		f = append(f, [2]string{"content-length", strconv.Itoa(total)})
+	case 2:
+		f = append(f, [2]string{"content-length", strconv.Itoa(total + 7)})
+	case 3:
+		f = append(f, [2]string{"content-length", strconv.Itoa(max(total-1, 0))})
+	}
+	switch v {
+	case 1:
+		f = append(f, [2]string{"X-Upper", "1"})
+	case 2:
+		f = append(f, [2]string{":path", "/late"})
+		f[3] = [2]string{"x-early", "1"}
+	case 4:
+		f = append(f, [2]string{"connection", "close"})
+	case 8:
+		f = append(f, [2]string{"te", "gzip"})
+	}
+	return f
+}
+
+var h3RawTrailer = [][2]string{{"x-raw-trl", "first"}, {"x-raw-trl", "second value"}, {"grpc-status", "0"}}
+
+func (x *h3Run) rawBuild(idx int, st *H3RawStream) ([]byte, []h3Span) {
+	var b []byte
+	var spans []h3Span
+	if st.Kind == "uni" {
+		b = quicvarint.Append(b, st.UType)
+	}
+	dataOff := 0
+	nHeaders := 0
+	for i := range st.Frames {
+		f := &st.Frames[i]
+		var t uint64
+		var pl []byte
+		switch f.K {
+		case "headers":
+			t = 1
+			if nHeaders == 0 {
+				pl = h3QPACK(x.rawReqFields(idx, st, f.V))
+			} else {
+				pl = h3QPACK(h3RawTrailer)
+			}
+			nHeaders++
+		case "trailers":
+			t, pl = 1, h3QPACK(h3RawTrailer)
+			nHeaders++
+		case "data":
+			t, pl = 0, wPayload(KMix(x.sc.Seed, 0x5a, uint64(idx)), dataOff, f.N)
+			dataOff += f.N
+		case "settings":
+			t = 4
+			switch f.V {
+			case 0:
+				pl = quicvarint.Append(quicvarint.Append(pl, 0x6), 65536)
+				pl = quicvarint.Append(quicvarint.Append(pl, 0x1f*9+0x21), 12345)
+			case 1:
+				pl = quicvarint.Append(quicvarint.Append(pl, 0x2), 0) // HTTP/2 ENABLE_PUSH: reserved
+			case 3:
+				pl = quicvarint.Append(quicvarint.Append(pl, 0x33), 1)
+			}
+		case "goaway":
+			t, pl = 7, quicvarint.Append(nil, 0)
+		case "cancel_push":
+			t, pl = 3, quicvarint.Append(nil, 0)
+		case "max_push_id":
+			t, pl = 0xd, quicvarint.Append(nil, 3)
+		case "push_promise":
+			t, pl = 5, append(quicvarint.Append(nil, 0), h3QPACK([][2]string{{":method", "GET"}})...)
+		default: // unk, reserved
+			t, pl = f.T, NewKRng(KMix(x.sc.Seed, 0x5c, uint64(idx), uint64(i))).Bytes(f.N)
+		}
+		sp := h3Span{start: len(b), f: f}
+		b = h3Varint(b, t, f.W)
+		b = h3Varint(b, uint64(len(pl)), f.W)
+		sp.hdrEnd = len(b)
+		b = append(b, pl...)
+		sp.end = len(b)
+		spans = append(spans, sp)
+	}
+	return b, spans
+}
+
+func h3RawCutoff(st *H3RawStream, total int) int {
+	if st.CutPPM <= 0 {
+		return total
+	}
+	return min(total, int(int64(total)*int64(st.CutPPM)/1000000))
+}
+
+// ---------------------------------------------------------------- raw peer: what RFC 9114 requires
+
+type h3RawExpect struct {
+	label    string
+	want     string   // ok | conn | stream | any
+	codes    []uint64 // acceptable error codes
+	handler  int      // 0 must not be invoked, 1 must be invoked, 2 may be
+	complete bool     // the handler sees the whole request, the peer the whole response
+	bodyLen  int      // DATA bytes written by the peer (upper bound of what a handler can read)
+	trailers bool
+}
+
+type h3RawConnState struct{ ctrl, qenc, qdec bool }
+
+func h3Conn(label string, codes ...uint64) h3RawExpect {
+	return h3RawExpect{label: label, want: "conn", codes: codes, handler: 2}
+}
+
+func (x *h3Run) rawExpectReq(idx int, st *H3RawStream, spans []h3Span, cutoff int) h3RawExpect {
+	seenH, seenT := false, false
+	body := 0
+	headersBad := 0
+	with := func(e h3RawExpect) h3RawExpect {
+		e.bodyLen = body
+		if !seenH || headersBad != 0 {
+			e.handler = 0
+		}
+		return e
+	}
+	for _, sp := range spans {
+		f := sp.f
+		if sp.start >= cutoff {
+			break
+		}
+		if sp.hdrEnd > cutoff {
+			if st.End == "fin" {
+				return with(h3Conn("frame header truncated by the end of the stream", 0x106))
+			}
+			return with(h3RawExpect{want: "any", handler: 2})
+		}
+		switch f.K {
+		case "unk":
+		case "reserved":
+			return with(h3Conn("reserved (HTTP/2) frame type on a request stream", 0x105))
+		case "settings", "goaway", "cancel_push", "max_push_id", "push_promise":
+			return with(h3Conn(strings.ToUpper(f.K)+" frame on a request stream", 0x105))
+		case "data":
+			if !seenH {
+				return with(h3Conn("DATA frame before HEADERS", 0x105))
+			}
+			if seenT {
+				return with(h3Conn("DATA frame after the trailer section", 0x105))
+			}
+		case "headers", "trailers":
+			if seenT {
+				return with(h3Conn("HEADERS frame after the trailer section", 0x105))
+			}
+		}
+		if sp.end > cutoff {
+			if f.K == "data" {
+				body += cutoff - sp.hdrEnd
+			}
+			if st.End == "fin" {
+				k := strings.ToUpper(f.K)
+				if f.K == "unk" {
+					k = "unknown"
+				}
+				return with(h3Conn(k+" frame truncated by the end of the stream", 0x106))
+			}
+			return with(h3RawExpect{want: "any", handler: 2})
+		}
+		switch f.K {
+		case "data":
+			body += f.N
+		case "headers", "trailers":
+			if !seenH {
+				seenH = true
+				headersBad = f.V
+			} else {
+				seenT = true
+			}
+		}
+		if headersBad != 0 {
+			break
+		}
+	}
+	if headersBad != 0 {
+		return with(h3RawExpect{label: fmt.Sprintf("malformed request header section (variant %d)", headersBad), want: "stream", codes: []uint64{0x10e}})
+	}
+	switch st.End {
+	case "fin":
+		if !seenH {
+			return with(h3RawExpect{label: "stream finished without a HEADERS frame", want: "any"})
+		}
+		if st.CLDecl == 2 {
+			return with(h3RawExpect{label: "content-length larger than the sum of the DATA frames", want: "stream", codes: []uint64{0x10e}, handler: 2})
+		}
+		if st.CLDecl == 3 && body > 0 {
+			return with(h3RawExpect{label: "content-length smaller than the sum of the DATA frames", want: "stream", codes: []uint64{0x10e}, handler: 2})
+		}
+		if st.RStop > 0 {
+			return with(h3RawExpect{want: "any", handler: 1, trailers: seenT})
+		}
+		return with(h3RawExpect{want: "ok", handler: 1, complete: true, trailers: seenT})
+	}
+	return with(h3RawExpect{want: "any", handler: 2})
+}
+
+func (x *h3Run) rawExpectUni(st *H3RawStream, spans []h3Span, cutoff int, cs *h3RawConnState) h3RawExpect {
+	tlen := quicvarint.Len(st.UType)
+	if cutoff < tlen {
+		return h3RawExpect{want: "any"}
+	}
+	switch st.UType {
+	case 1:
+		return h3Conn("push stream opened by the client", 0x103)
+	case 2:
+		if cs.qenc {
+			return h3Conn("second QPACK encoder stream", 0x103)
+		}
+		cs.qenc = true
+		return h3RawExpect{want: "ok"}
+	case 3:
+		if cs.qdec {
+			return h3Conn("second QPACK decoder stream", 0x103)
+		}
+		cs.qdec = true
+		return h3RawExpect{want: "ok"}
+	case 0:
+	default:
+		return h3RawExpect{want: "ok"}
+	}
+	if cs.ctrl {
+		return h3Conn("second control stream", 0x103)
+	}
+	cs.ctrl = true
+	first := true
+	for _, sp := range spans {
+		f := sp.f
+		if sp.start >= cutoff {
+			break
+		}
+		if sp.hdrEnd > cutoff || sp.end > cutoff {
+			if st.End == "fin" || st.End == "reset" {
+				return h3Conn("control stream closed", 0x104, 0x106)
+			}
+			return h3RawExpect{want: "any"}
+		}
+		if first {
+			first = false
+			if f.K != "settings" {
+				return h3Conn("control stream does not start with SETTINGS", 0x10a)
+			}
+			if f.V == 1 {
+				return h3Conn("SETTINGS with a reserved HTTP/2 setting identifier", 0x109)
+			}
+			continue
+		}
+		switch f.K {
+		case "settings":
+			return h3Conn("second SETTINGS frame on the control stream", 0x105)
+		case "data", "headers", "trailers", "push_promise":
+			return h3Conn(strings.ToUpper(f.K)+" frame on the control stream", 0x105)
+		case "reserved":
+			return h3Conn("reserved (HTTP/2) frame type on the control stream", 0x105)
+		}
+	}
+	if st.End == "fin" || st.End == "reset" {
+		return h3Conn("control stream closed", 0x104)
+	}
+	return h3RawExpect{want: "ok"}
+}
+
+// ---------------------------------------------------------------- raw peer: execution
+
+type h3RawObs struct {
+	ran       bool
+	exp       h3RawExpect
+	openErr   error
+	writeErr  error
+	wrote     int
+	resp      []byte
+	respErr   error
+	respEOF   bool
+	connErr   error // cause of the connection's end, sampled after the stream's script and the waiting period
+	calls     []*h3SrvObs
+	stopped   bool
+}
+
+type h3RawState struct {
+	obs     []*h3RawObs
+	conn    *quic.Conn
+	ended   bool // an input that must be fatal for the connection has been sent: the history ends
+	pingOK  bool
+	pingRan bool
+	pingErr string
+}
+
+func (x *h3Run) rawWait() time.Duration {
+	d := 4*time.Duration(x.sc.Net.LatencyUS+x.sc.Net.JitterUS)*time.Microsecond + 300*time.Millisecond
+	if x.sc.Faulty {
+		d += 3 * time.Second
+	}
+	return d
+}
+
+func (x *h3Run) runRaw(dial func(context.Context, string, *tls.Config, *quic.Config) (*quic.Conn, error)) {
+	sc, res := x.sc, x.res
+	rs := &h3RawState{obs: make([]*h3RawObs, len(sc.Streams))}
+	x.raw = rs
+	for i := range rs.obs {
+		rs.obs[i] = &h3RawObs{}
+	}
+	tc := x.nodes.CTLS.Clone()
+	conn, err := dial(x.runCtx, "", tc, x.nodes.CQ)
+	if err != nil {
+		if x.clean() {
+			x.flag(4, "raw peer: QUIC handshake failed in a fault-free run: "+h3ErrClass(err), "%v", err)
+		}
+		return
+	}
+	rs.conn = conn
+	select {
+	case <-conn.HandshakeComplete():
+	case <-conn.Context().Done():
+	case <-x.runCtx.Done():
+	}
+	// the server's own unidirectional streams are drained
+	var uwg sync.WaitGroup
+	uwg.Add(1)
+	go func() {
+		defer uwg.Done()
+		for {
+			s, err := conn.AcceptUniStream(x.runCtx)
+			if err != nil {
+				return
+			}
+			uwg.Add(1)
+			go func() {
+				defer uwg.Done()
+				io.Copy(io.Discard, s)
+			}()
+		}
+	}()
+	cs := &h3RawConnState{}
+	for i := range sc.Streams {
+		if rs.ended || conn.Context().Err() != nil || x.runCtx.Err() != nil {
+			break
+		}
+		st := &sc.Streams[i]
+		if st.AtMS > 0 {
+			time.Sleep(time.Duration(st.AtMS) * time.Millisecond)
+		}
+		x.rawStream(i, st, cs)
+	}
+	// is the connection still usable?
+	if !rs.ended && conn.Context().Err() == nil && x.runCtx.Err() == nil {
+		rs.pingRan = true
+		ping := &H3RawStream{Kind: "req", Method: "GET", Frames: []H3RawFrame{{K: "headers"}}, End: "fin", RespN: 10}
+		o := &h3RawObs{}
+		x.mu.Lock()
+		rs.obs = append(rs.obs, o)
+		x.mu.Unlock()
+		x.rawExec(len(sc.Streams), ping, o)
+		r := h3ParseResp(o.resp)
+		rs.pingOK = o.respEOF && r.err == "" && r.status == 200
+		rs.pingErr = fmt.Sprintf("write %v, read %v after %d bytes, parse %q status %d, connection %v", o.writeErr, o.respErr, len(o.resp), r.err, r.status, context.Cause(conn.Context()))
+	}
+	conn.CloseWithError(0x100, "")
+	uwg.Wait()
+	time.Sleep(50 * time.Millisecond)
+	_ = res
+}
+
+func (x *h3Run) rawStream(i int, st *H3RawStream, cs *h3RawConnState) {
+	rs := x.raw
+	o := rs.obs[i]
+	b, spans := x.rawBuild(i, st)
+	cutoff := h3RawCutoff(st, len(b))
+	if st.Kind == "uni" {
+		o.exp = x.rawExpectUni(st, spans, cutoff, cs)
+	} else {
+		o.exp = x.rawExpectReq(i, st, spans, cutoff)
+	}
+	if o.exp.label != "" {
+		x.res.Fault("raw-anomaly")
+	}
+	x.rawExec(i, st, o)
+	if o.exp.want == "conn" || st.End == "close" || (st.RStop > 0 && st.RStopAct == "close") {
+		rs.ended = true
+	}
+}
+
+// rawExec writes the stream's byte sequence in pieces, ends it as scripted, collects the reaction.
+func (x *h3Run) rawExec(i int, st *H3RawStream, o *h3RawObs) {
+	conn := x.raw.conn
+	o.ran = true
+	b, _ := x.rawBuild(i, st)
+	b = b[:h3RawCutoff(st, len(b))]
+	var wr io.Writer
+	var finish func()
+	var rdone chan struct{}
+	switch st.Kind {
+	case "uni":
+		s, err := conn.OpenUniStreamSync(x.runCtx)
+		if err != nil {
+			o.openErr = err
+			return
+		}
+		wr = s
+		finish = func() {
+			switch st.End {
+			case "fin":
+				s.Close()
+			case "reset":
+				s.CancelWrite(0x10c)
+			}
+		}
+	default:
+		s, err := conn.OpenStreamSync(x.runCtx)
+		if err != nil {
+			o.openErr = err
+			return
+		}
+		wr = s
+		finish = func() {
+			switch st.End {
+			case "fin":
+				s.Close()
+			case "reset":
+				s.CancelWrite(0x10c)
+			}
+		}
+		rdone = make(chan struct{})
+		go func() {
+			defer close(rdone)
+			buf := make([]byte, 4096)
+			for {
+				if st.RStop > 0 && len(o.resp) >= st.RStop-1 {
+					o.stopped = true
+					x.res.Fault("raw-peer-stops-reading")
+					if st.RStopAct == "close" {
+						conn.CloseWithError(0x100, "")
+					} else {
+						s.CancelRead(0x10c)
+					}
+					return
+				}
+				n, err := s.Read(buf)
+				o.resp = append(o.resp, buf[:n]...)
+				if err == io.EOF {
+					o.respEOF = true
+					return
+				}
+				if err != nil {
+					o.respErr = err
+					return
+				}
+			}
+		}()
+	}
+	for k, off := 0, 0; off < len(b); k++ {
+		n := len(b) - off
+		if st.Split != 0 {
+			n = min(n, NewKRng(KMix(uint64(st.Split), uint64(k))).Pick(1, 1, 2, 3, 5, 17, 100, 1000, 1200, 5000))
+		}
+		m, err := wr.Write(b[off : off+n])
+		o.wrote += m
+		if err != nil {
+			o.writeErr = err
+			break
+		}
+		off += n
+		if st.GapUS > 0 && off < len(b) {
+			time.Sleep(time.Duration(st.GapUS) * time.Microsecond)
+		}
+	}
+	if st.End == "close" {
+		x.res.Fault("raw-peer-closes-connection")
+		conn.CloseWithError(0x100, "")
+	} else if o.writeErr == nil {
+		finish()
+	}
+	wait := x.rawWait()
+	if rdone != nil && o.exp.want != "conn" {
+		// a response (or a stream error) is due; a scripted end that leaves the request unfinished gets the short wait
+		if o.exp.want == "ok" || st.End == "fin" {
+			wait += 3 * time.Second
+		}
+		select {
+		case <-rdone:
+		case <-time.After(wait):
+		case <-conn.Context().Done():
+		}
+	} else {
+		select {
+		case <-conn.Context().Done():
+		case <-time.After(wait):
+		}
+	}
+	o.connErr = context.Cause(conn.Context())
+	if rdone != nil {
+		select {
+		case <-rdone:
+		default:
+			// unblock the reader: nothing more is expected on this stream
+			if s, ok := wr.(*quic.Stream); ok {
+				s.CancelRead(0x10c)
+			}
+			<-rdone
+			o.respErr = nil
+		}
+	}
+}
+
+// ---------------------------------------------------------------- raw peer: response parser
+
+type h3RawResp struct {
+	status  int
+	hdr     http.Header
+	ninfo   int
+	body    []byte
+	trl     http.Header
+	err     string
+}
+
+func h3ParseResp(b []byte) h3RawResp {
+	r := h3RawResp{}
+	dec := qpack.NewDecoder()
+	for len(b) > 0 {
+		t, n, err := quicvarint.Parse(b)
+		if err != nil {
+			r.err = "truncated frame type"
+			return r
+		}
+		b = b[n:]
+		l, n, err := quicvarint.Parse(b)
+		if err != nil {
+			r.err = "truncated frame length"
+			return r
+		}
+		b = b[n:]
+		if uint64(len(b)) < l {
+			r.err = "truncated frame payload"
+			if t == 0 {
+				r.body = append(r.body, b...)
+			}
+			return r
+		}
+		pl := b[:l]
+		b = b[l:]
+		switch t {
+		case 0:
+			if r.status == 0 {
+				r.err = "DATA before HEADERS"
+				return r
+			}
+			r.body = append(r.body, pl...)
+		case 1:
+			h := http.Header{}
+			status := 0
+			next := dec.Decode(pl)
+			for {
+				hf, err := next()
+				if err == io.EOF {
+					break
+				}
+				if err != nil {
+					r.err = "header block does not decode"
+					return r
+				}
+				if hf.Name == ":status" {
+					status, _ = strconv.Atoi(hf.Value)
+				} else {
+					h.Add(hf.Name, hf.Value)
+				}
+			}
+			switch {
+			case r.status == 0 && status >= 100 && status < 200:
+				r.ninfo++
+			case r.status == 0:
+				r.status, r.hdr = status, h
+			case r.trl == nil:
+				r.trl = h
+			default:
+				r.err = "HEADERS after trailers"
+				return r
+			}
+		}
+	}
+	return r
+}
+
+// ---------------------------------------------------------------- raw peer: handler
+
+func (x *h3Run) serveRaw(w http.ResponseWriter, r *http.Request) {
+	i, ok := h3ParseID(r.URL.Path, "/s/")
+	if !ok || i > len(x.sc.Streams) {
+		x.flag(1, "handler invoked for a request nobody sent", "%s %s", r.Method, r.RequestURI)
+		w.WriteHeader(400)
+		return
+	}
+	var st *H3RawStream
+	if i == len(x.sc.Streams) {
+		st = &H3RawStream{Kind: "req", Method: "GET", RespN: 10}
+	} else {
+		st = &x.sc.Streams[i]
+	}
+	x.mu.Lock()
+	o := x.raw.obs[i]
+	x.mu.Unlock()
+	so := &h3SrvObs{method: r.Method, uri: r.RequestURI, host: r.Host, proto: r.Proto, hdr: r.Header.Clone(), cl: r.ContentLength, t0: x.w.NowNS()}
+	defer func() { so.t1 = x.w.NowNS() }()
+	x.mu.Lock()
+	o.calls = append(o.calls, so)
+	x.mu.Unlock()
+	what := fmt.Sprintf("raw stream #%d", i)
+	wantM := st.Method
+	if wantM == "" {
+		wantM = "POST"
+	}
+	if so.method != wantM || so.uri != x.rawPath(i) || so.host != "raw.test" {
+		x.flag(0, "handler saw a different request line than the raw peer sent", "%s: %s %s host %s", what, so.method, so.uri, so.host)
+	}
+	want := http.Header{}
+	for _, kv := range st.Hdr {
+		want.Add(kv.K, h3Val(kv))
+	}
+	if c := want["Cookie"]; len(c) > 0 {
+		want["Cookie"] = []string{strings.Join(c, "; ")}
+	}
+	got := so.hdr.Clone()
+	delete(got, "Content-Length")
+	if kind, d := h3HdrDiff(want, got, nil); kind != "" {
+		x.flag(0, "request header fields seen by the handler differ from those the raw peer sent: "+kind, "%s: %s", what, d)
+	}
+	x.srvReadBody(what, so, r.Body, KMix(x.sc.Seed, 0x5a, uint64(i)), int64(i)*7+3, -1, h3RawDataLen(st))
+	if so.bodyEOF {
+		so.trl = r.Trailer.Clone()
+	}
+	hd := w.Header()
+	hd.Set("X-Raw", strconv.Itoa(i))
+	hd.Set("Content-Type", "application/x-raw")
+	if st.RespTrl {
+		hd.Set("Trailer", "X-Resp-Trl")
+	}
+	if so.bodyErr != nil {
+		w.WriteHeader(400)
+	}
+	key := KMix(x.sc.Seed, 0x5b, uint64(i))
+	for k, off := 0, 0; off < st.RespN; k++ {
+		n := min(h3Chunk(int64(i)+11, k), st.RespN-off)
+		if _, err := w.Write(wPayload(key, off, n)); err != nil {
+			so.writeErr = err
+			break
+		}
+		off += n
+		if k%2 == 0 {
+			w.(http.Flusher).Flush()
+		}
+	}
+	if st.RespTrl {
+		hd.Set("X-Resp-Trl", "done")
+	}
+	so.done = true
+}
+
+// ---------------------------------------------------------------- raw peer: verdicts
+
+func h3RawGot(o *h3RawObs, r *h3RawResp) (kind string, code uint64, text string) {
+	var ae *quic.ApplicationError
+	var se *quic.StreamError
+	if o.connErr != nil && errors.As(o.connErr, &ae) && ae.Remote {
+		return "conn", uint64(ae.ErrorCode), "connection error " + h3ErrName(uint64(ae.ErrorCode))
+	}
+	if o.respErr != nil && errors.As(o.respErr, &se) && se.Remote {
+		return "stream", uint64(se.ErrorCode), "stream error " + h3ErrName(uint64(se.ErrorCode))
+	}
+	if o.writeErr != nil && errors.As(o.writeErr, &se) && se.Remote {
+		return "stream", uint64(se.ErrorCode), "STOP_SENDING " + h3ErrName(uint64(se.ErrorCode))
+	}
+	if o.respEOF && r.err == "" && r.status != 0 {
+		return "response", uint64(r.status), fmt.Sprintf("a complete response with status %d", r.status)
+	}
+	if o.connErr != nil {
+		return "dead", 0, "connection ended: " + h3ErrClass(o.connErr)
+	}
+	return "none", 0, "no reaction"
+}
+
+func (x *h3Run) judgeRaw() {
+	sc, res, rs := x.sc, x.res, x.raw
+	if rs == nil {
+		return
+	}
+	for i := range sc.Streams {
+		st, o := &sc.Streams[i], rs.obs[i]
+		if !o.ran {
+			continue
+		}
+		e := o.exp
+		r := h3ParseResp(o.resp)
+		kind, code, text := h3RawGot(o, &r)
+		what := fmt.Sprintf("raw stream #%d (%s type %d, %d frames, cut %d ppm, end %s)", i, st.Kind, st.UType, len(st.Frames), st.CutPPM, st.End)
+		res.TraceAdd(fmt.Sprintf("%d:%s:%d:%d:%d:%d", i, kind, code, len(o.resp), o.wrote, len(o.calls)))
+		res.Logf("%s: expect %s %v %q handler=%d complete=%v body=%d | got %s; wrote %d writeErr=%v resp %d bytes eof=%v err=%v parse=%q status=%d calls=%d connErr=%v", what, e.want, e.codes, e.label,
+			e.handler, e.complete, e.bodyLen, text, o.wrote, o.writeErr, len(o.resp), o.respEOF, o.respErr, r.err, r.status, len(o.calls), o.connErr)
+		if o.openErr != nil {
+			continue
+		}
+		label := e.label
+		if label == "" {
+			label = "well-formed input"
+		}
+		res.Probe("raw:" + label + " -> " + text)
+		okCode := func() bool {
+			for _, c := range e.codes {
+				if c == code {
+					return true
+				}
+			}
+			return false
+		}
+		req := func(k string) string {
+			var n []string
+			for _, c := range e.codes {
+				n = append(n, h3ErrName(c))
+			}
+			return k + " " + strings.Join(n, " or ")
+		}
+		// ---- handler side
+		for _, so := range o.calls {
+			res.Logf("   call: [%d..%d us] cl=%d bodyN=%d eof=%v err=%v trl=%v done=%v", so.t0/1000, so.t1/1000, so.cl, so.bodyN, so.bodyEOF, so.bodyErr, so.trl, so.done)
+			if e.handler == 0 {
+				x.flag(3, "raw peer: "+label+": handler invoked", "%s", what)
+			}
+			if so.bodyEOF && e.want != "ok" && e.want != "any" {
+				x.flag(3, "raw peer: "+label+": the handler read the request body to a clean EOF", "%s: %d bytes; reaction seen by the peer: %s", what, so.bodyN, text)
+			}
+			if so.bodyEOF && e.complete {
+				if so.bodyN != e.bodyLen {
+					x.flag(0, "raw peer: request body truncated: handler reached a clean EOF before all DATA bytes", "%s: %d of %d", what, so.bodyN, e.bodyLen)
+				}
+				var wt http.Header
+				if e.trailers {
+					wt = http.Header{}
+					for _, f := range h3RawTrailer {
+						wt.Add(f[0], f[1])
+					}
+				}
+				if kind, d := h3HdrDiff(wt, h3NonEmpty(so.trl), nil); kind != "" {
+					x.flag(0, "raw peer: request trailers seen by the handler differ from those sent: "+kind, "%s: %s", what, d)
+				}
+			}
+		}
+		if len(o.calls) > 1 {
+			x.flag(1, "handler invoked more than once for one request", "%s", what)
+		}
+		// ---- reaction seen by the peer
+		switch e.want {
+		case "conn":
+			switch {
+			case kind == "conn" && okCode():
+			case kind == "conn":
+				x.flag(3, "raw peer: "+label+": RFC 9114 requires "+req("connection error")+", observed "+text, "%s", what)
+			case sc.Faulty && (kind == "none" || kind == "dead"):
+			default:
+				x.flag(3, "raw peer: "+label+": RFC 9114 requires "+req("connection error")+", observed "+text, "%s", what)
+			}
+		case "stream":
+			switch {
+			case kind == "stream" && okCode():
+			case sc.Faulty && (kind == "none" || kind == "dead"):
+			default:
+				x.flag(3, "raw peer: "+label+": RFC 9114 requires "+req("stream error")+", observed "+text, "%s", what)
+			}
+		case "ok":
+			if st.Kind == "uni" {
+				if kind == "conn" {
+					x.flag(3, "raw peer: "+label+" on a unidirectional stream must be tolerated, observed "+text, "%s", what)
+				}
+				break
+			}
+			switch {
+			case kind == "response":
+				if r.status != 200 {
+					x.flag(3, "raw peer: well-formed request answered with an error status", "%s: %d", what, r.status)
+				}
+				if len(r.body) != st.RespN || wCheckPayload(KMix(sc.Seed, 0x5b, uint64(i)), 0, r.body) >= 0 {
+					x.flag(0, "raw peer: response body differs from what the handler wrote", "%s: %d bytes vs %d", what, len(r.body), st.RespN)
+				}
+				if r.hdr.Get("X-Raw") != strconv.Itoa(i) {
+					x.flag(0, "raw peer: response header differs from what the handler wrote", "%s: %v", what, r.hdr)
+				}
+				if st.RespTrl && (r.trl == nil || r.trl.Get("X-Resp-Trl") != "done") {
+					x.flag(0, "raw peer: response trailers missing", "%s: %v", what, r.trl)
+				}
+				if len(o.calls) == 0 {
+					x.flag(1, "raw peer: response although the handler was never invoked", "%s", what)
+				}
+			case sc.Faulty:
+			default:
+				x.flag(3, "raw peer: well-formed request (unknown frames, arbitrary write boundaries) not answered: "+text, "%s: response parse %q after %d bytes", what, r.err, len(o.resp))
+			}
+		case "any":
+			if kind == "response" && len(o.calls) == 0 {
+				x.flag(1, "raw peer: response although the handler was never invoked", "%s", what)
+			}
+		}
+	}
+	if rs.pingRan && !rs.pingOK && !sc.Faulty {
+		x.flag(4, "raw peer: connection unusable after inputs that must be tolerated", "%s", rs.pingErr)
+	} else if rs.pingOK {
+		res.Probe("raw:connection-alive-at-end")
+	}
+	// cross-check: the CONNECTION_CLOSE the peer's API reported is the one on the wire
+	var ae *quic.ApplicationError
+	if rs.conn != nil {
+		if c := context.Cause(rs.conn.Context()); c != nil && errors.As(c, &ae) && ae.Remote {
+			seen := false
+			for _, p := range x.w.Tap.All {
+				if p.Dir != 1 {
+					continue
+				}
+				for k := range p.Frames {
+					if f := &p.Frames[k]; f.Name == "CONNECTION_CLOSE_APP" {
+						seen = true
+						if f.Code != uint64(ae.ErrorCode) {
+							x.flag(1, "CONNECTION_CLOSE code on the wire differs from the code reported to the peer", "wire %#x api %#x", f.Code, uint64(ae.ErrorCode))
+						}
+					}
+				}
+			}
+			if seen {
+				res.Probe("raw:close-code-confirmed-on-the-wire")
+			}
+		}
+	}
+	x.judgeConn([2]error{}, false)
+}
+
+// ---------------------------------------------------------------- raw peer: generator
+
+func h3GenRawReq(r *KRng) H3RawStream {
+	st := H3RawStream{Kind: "req", End: "fin", Method: []string{"POST", "PUT", "GET", "PATCH"}[r.N(4)]}
+	unk := func() H3RawFrame {
+		t := uint64(0x1f*r.N(1000) + 0x21)
+		if r.P(0.4) {
+			t = uint64(r.Pick(0x40, 0xff, 0x4000, 0x1234567, 0xe, 0xa, 0xb, 0xc))
+		}
+		return H3RawFrame{K: "unk", T: t, N: r.Pick(0, 1, 5, 100, 1500, 9000), W: r.N(4)}
+	}
+	maybeUnk := func() {
+		for r.P(0.3) {
+			st.Frames = append(st.Frames, unk())
+		}
+	}
+	maybeUnk()
+	st.Frames = append(st.Frames, H3RawFrame{K: "headers", W: r.N(4)})
+	if st.Method != "GET" || r.P(0.2) {
+		for k, n := 0, r.N(4); k < n; k++ {
+			maybeUnk()
+			st.Frames = append(st.Frames, H3RawFrame{K: "data", N: r.Pick(0, 1, 100, 1200, 5000, 20000), W: r.N(4)})
+		}
+		st.CLDecl = r.Pick(0, 0, 1)
+		if r.P(0.3) {
+			maybeUnk()
+			st.Frames = append(st.Frames, H3RawFrame{K: "trailers", W: r.N(4)})
+		}
+	}
+	maybeUnk()
+	for k, n := 0, r.N(3); k < n; k++ {
+		st.Hdr = append(st.Hdr, H3KV{K: fmt.Sprintf("x-raw-%d", k), V: "v", Pad: r.Pick(0, 10, 300)})
+	}
+	if r.P(0.2) {
+		st.Hdr = append(st.Hdr, H3KV{K: "cookie", V: "a=1"}, H3KV{K: "cookie", V: "b=2"})
+	}
+	if r.P(0.7) {
+		st.Split = int64(r.U64()>>1) | 1
+		st.GapUS = int64(r.Pick(0, 0, 50, 1000, 12000))
+	}
+	st.RespN = r.Pick(0, 10, 1000, 5000, 30000)
+	st.RespTrl = r.P(0.3)
+	return st
+}
+
+func genH3Raw(r *KRng, sc *H3Scenario, tier string) {
+	ctrl := H3RawStream{Kind: "uni", UType: 0, End: "open", Frames: []H3RawFrame{{K: "settings", V: r.Pick(0, 0, 2, 3)}}}
+	if r.P(0.3) {
+		ctrl.Frames = append(ctrl.Frames, H3RawFrame{K: "unk", T: uint64(0x1f*r.N(50) + 0x21), N: r.N(30)})
+	}
+	if r.P(0.2) {
+		ctrl.Frames = append(ctrl.Frames, H3RawFrame{K: "max_push_id"})
+	}
+	if r.P(0.5) {
+		ctrl.Split = int64(r.U64()>>1) | 1
+		ctrl.GapUS = int64(r.Pick(0, 100, 5000))
+	}
+	if r.P(0.9) {
+		sc.Streams = append(sc.Streams, ctrl)
+	}
+	n := r.Pick(1, 1, 2, 3, 5)
+	for i := 0; i < n; i++ {
+		switch r.N(10) {
+		case 0:
+			sc.Streams = append(sc.Streams, H3RawStream{Kind: "uni", UType: uint64(0x1f*r.N(100) + 0x21), End: []string{"open", "fin", "reset"}[r.N(3)], Frames: []H3RawFrame{{K: "unk", T: 0x21, N: r.N(200)}}})
+		case 1:
+			sc.Streams = append(sc.Streams, H3RawStream{Kind: "uni", UType: uint64(r.Pick(2, 3, 0x54, 0x41)), End: "open"})
+		default:
+			sc.Streams = append(sc.Streams, h3GenRawReq(r))
+		}
+	}
+	if r.P(0.6) {
+		// one anomalous stream
+		st := h3GenRawReq(r)
+		pos := func() int { return r.N(len(st.Frames) + 1) }
+		insert := func(f H3RawFrame, at int) {
+			st.Frames = append(st.Frames[:at], append([]H3RawFrame{f}, st.Frames[at:]...)...)
+		}
+		switch r.N(20) {
+		case 0:
+			insert(H3RawFrame{K: "data", N: r.Pick(0, 10, 2000)}, 0)
+		case 1:
+			insert(H3RawFrame{K: []string{"settings", "goaway", "cancel_push", "max_push_id", "push_promise"}[r.N(5)]}, pos())
+		case 2:
+			insert(H3RawFrame{K: "reserved", T: uint64(r.Pick(2, 6, 8, 9)), N: r.Pick(0, 5, 100)}, pos())
+		case 3:
+			st.Frames = append(st.Frames, H3RawFrame{K: "trailers"}, H3RawFrame{K: "trailers"})
+		case 4:
+			st.Frames = append(st.Frames, H3RawFrame{K: "trailers"}, H3RawFrame{K: "data", N: r.Pick(0, 1, 1000)})
+		case 5:
+			for k := range st.Frames {
+				if st.Frames[k].K == "headers" {
+					st.Frames[k].V = r.Pick(1, 2, 3, 4, 7, 8, 9)
+				}
+			}
+		case 6:
+			st.CLDecl = r.Pick(2, 3)
+			if h3RawDataLen(&st) == 0 {
+				st.Frames = append(st.Frames, H3RawFrame{K: "data", N: 100})
+			}
+		case 7, 8, 9:
+			st.CutPPM = 1 + r.N(999999)
+			st.End = []string{"fin", "fin", "reset", "close"}[r.N(4)]
+		case 10:
+			st.RStop = 1 + r.Pick(0, 1, 100, 3000)
+			st.RStopAct = []string{"stop", "close"}[r.N(2)]
+		case 11:
+			st.Frames = nil
+			for r.P(0.5) {
+				st.Frames = append(st.Frames, H3RawFrame{K: "unk", T: 0x21, N: r.N(50)})
+			}
+		case 12:
+			st = H3RawStream{Kind: "uni", UType: 0, End: "open", Frames: []H3RawFrame{{K: "settings"}}} // second control stream (or a first one)
+		case 13:
+			st = H3RawStream{Kind: "uni", UType: 1, End: "open", Frames: []H3RawFrame{{K: "unk", T: 0x21, N: 3}}}
+		case 14:
+			st = H3RawStream{Kind: "uni", UType: uint64(r.Pick(2, 3)), End: "open"}
+			sc.Streams = append(sc.Streams, st)
+		case 15:
+			// anomalies on the (first) control stream
+			c := H3RawStream{Kind: "uni", UType: 0, End: "open"}
+			switch r.N(6) {
+			case 0:
+				c.Frames = []H3RawFrame{{K: []string{"data", "goaway", "max_push_id", "headers"}[r.N(4)], N: 3}}
+			case 1:
+				c.Frames = []H3RawFrame{{K: "settings", V: 1}}
+			case 2:
+				c.Frames = []H3RawFrame{{K: "settings"}, {K: "settings", V: 2}}
+			case 3:
+				c.Frames = []H3RawFrame{{K: "settings"}, {K: []string{"data", "headers", "reserved"}[r.N(3)], T: 6, N: 4}}
+			case 4:
+				c.Frames = []H3RawFrame{{K: "settings"}}
+				c.End = []string{"fin", "reset"}[r.N(2)]
+			case 5:
+				c.Frames = []H3RawFrame{{K: "settings"}, {K: "unk", T: 0x21, N: 40}}
+				c.CutPPM = 1 + r.N(999999)
+				c.End = []string{"fin", "reset", "open"}[r.N(3)]
+			}
+			if len(sc.Streams) > 0 && sc.Streams[0].Kind == "uni" && sc.Streams[0].UType == 0 {
+				sc.Streams = sc.Streams[1:]
+			}
+			st = c
+		}
+		at := r.N(len(sc.Streams) + 1)
+		if r.P(0.5) {
+			at = len(sc.Streams)
+		}
+		sc.Streams = append(sc.Streams[:at], append([]H3RawStream{st}, sc.Streams[at:]...)...)
+	}
+}
